@@ -599,6 +599,7 @@ impl C08 {
             ],
         };
         let mut sender_gone = false;
+        let mut listener_failed = false;
         let mut closed = false;
 
         if let RunKind::Sweep(i) = kind {
@@ -682,7 +683,14 @@ impl C08 {
                         };
                         let blocked_write = s2c.lock().unwrap().writer_waker.is_some();
                         if let Some(by) = bystander.as_mut() { by.note_notify(); }
-                        notify.notify();
+                        if ctx.chance(1, 5) {
+                            // through a short-lived clone of the sender, as an
+                            // application with several update sources would
+                            counters.bump("probe_notify_through_cloned_sender");
+                            notify.clone().notify();
+                        } else {
+                            notify.notify();
+                        }
                         if !closed {
                             last_notify_mark = Some(s2c.lock().unwrap().written.len());
                         }
@@ -747,7 +755,16 @@ impl C08 {
                         // sender) and the application drops its sender too:
                         // the notification channel closes. The connection must
                         // keep answering queries.
-                        if !sender_gone {
+                        if !sender_gone && !listener_failed && ctx.chance(1, 3) {
+                            // The listener reports an error: Server::run returns
+                            // it. The application keeps its sender, so the
+                            // channel stays open; the connection must go on
+                            // serving queries AND notifications.
+                            listener_failed = true;
+                            listener.fail();
+                            counters.bump("fault_listener_error");
+                            ctx.ev(10, 1, || "listener yields an error (Server::run returns Err); the sender lives on".into());
+                        } else if !sender_gone {
                             sender_gone = true;
                             listener.close();
                             drop(std::mem::replace(&mut notify, NotifySender::new()));
